@@ -32,6 +32,7 @@ static int nthreads, nops[VS_MAXT];
 static op_t ops[VS_MAXT][MAXOPS];
 static int controlled = 1;
 static volatile int avail[MAXTOK];
+static volatile int ready_returned;            /* tasks complete only after taskpool_ready() returned */
 static __thread int my_tid = -1;
 
 static parsec_taskpool_t tp;
@@ -105,6 +106,7 @@ static void parse_scenario(const char *path)
 static void setup(void)
 {
     memset((void*)avail, 0, sizeof(avail));
+    ready_returned = 0;
     ncb = 0; cbby = 0; ndestroyed = 0;
     memset(&tp, 0, sizeof(tp));
     PARSEC_OBJ_CONSTRUCT_WRELEASE(&tp, parsec_taskpool_t, taskpool_released);     /* reference count 1: ours */
@@ -146,13 +148,18 @@ static void body(int tid, void *arg)
                           __sync_synchronize();
                           for( j = 0; j < o->ntok; j++ ) avail[o->tok[j]] = 1;     /* runnable only now (contract E2) */
                           break;
-        case OP_ENDTASK:  call(tid, "addtasks", -1, mod->taskpool_addto_nb_tasks); break;
+        case OP_ENDTASK:
+            while( !ready_returned ) { if( controlled ) vs_point(PARSEC_VERIF_K_SPIN, &ready_returned); else sched_yield(); }
+            call(tid, "addtasks", -1, mod->taskpool_addto_nb_tasks);
+            break;
         case OP_ADDPA:    call(tid, "addpa", 1, mod->taskpool_addto_runtime_actions); break;
         case OP_RELPA:    call(tid, "addpa", -1, mod->taskpool_addto_runtime_actions); break;
         case OP_READY:
             vt_ev("\"e\":\"inv\",\"t\":%d,\"op\":\"ready\",\"v\":0", tid + 1);
             (void)mod->taskpool_ready(&tp);
             vt_ev("\"e\":\"res\",\"t\":%d,\"op\":\"ready\",\"st\":\"%s\"", tid + 1, state_name());
+            __sync_synchronize();
+            ready_returned = 1;
             break;
         }
     }
